@@ -130,7 +130,7 @@ def _openNormalKlattgrid(data: str) -> Klattgrid:
     # Find sections
     sectionIndexList = _findIndicies(data, "<exists>")
 
-    sectionIndexList.append(-1)
+    sectionIndexList.append(len(data))
 
     for i in range(len(sectionIndexList) - 1):
         dataTuple = _getSectionHeader(data, sectionIndexList, i)
@@ -201,9 +201,9 @@ def _proccessContainerTierInput(sectionData: str, name: str):
             continue
         ii = masterIndexList.index(val)  # Index of the index
         try:
-            subList.append(masterIndexList[ii + 1] - 1)
+            subList.append(masterIndexList[ii + 1])
         except IndexError:
-            subList.append(-1)
+            subList.append(len(sectionData))
 
     # Build the tier structure
     kct = KlattContainerTier(name)
